@@ -11,8 +11,11 @@ transparency stream) compares the worker-to-worker connections with the path clo
 
 Ops (JSON lists): ['mkworker', stateful, szin, szout] ['mkfuture', szin, szout] ['fork', n]
   ['sub', s, j, p, i]  = s[j].subscribe(p[i])      ['train', n, tp, ti, lp, li] = n.train(tp[ti], lp[li])
+  ['pub', p, i, s, k]  = p[i].publish(s, Apply(k))  (the publishing side of the port API: a Future subscriber
+                         registers the publisher under an Apply-typed index)
   ['segment', h, t|None] = flow.Segment(h, t)      ['validate', h, t|None] = Segment(h, t).accept(Validator())
   oracle-only (not modelled): ['copy', h, t|None] = Segment(h, t).copy()   ['extend', h, t|None, r] = Segment(h, t).extend(r)
+    ['compose', ah, at|None, th, tt|None] = flow.Composition(op) with op.compose() = Trunk(Segment(ah, at), Segment(th, tt))
 """
 from __future__ import annotations
 
@@ -58,7 +61,7 @@ def _env():
         sys.unraisablehook = lambda *a: None  # Subscription.__del__ of a node unknown to _PORTS raises AttributeError
         from forml import flow
         from forml.flow._graph import atomic, port, span
-        from forml.flow._suite import clean
+        from forml.flow._suite import assembly, clean
 
         class Stateless(flow.Actor):
             def apply(self, *features):
@@ -77,7 +80,7 @@ def _env():
             def set_state(self, state):
                 pass
 
-        _ENV.update(flow=flow, atomic=atomic, port=port, span=span, clean=clean,
+        _ENV.update(flow=flow, atomic=atomic, port=port, span=span, clean=clean, assembly=assembly,
                     stateless=Stateless.builder(), stateful=Stateful.builder(),
                     topo=flow.TopologyError)
     return _ENV
@@ -151,6 +154,20 @@ class Real:
             if k == 'sub':
                 nodes[op[1]][op[2]].subscribe(nodes[op[3]][op[4]])
                 return ['ok'], None
+            if k == 'pub':
+                nodes[op[1]][op[2]].publish(nodes[op[3]], env['port'].Apply(op[4]))
+                return ['ok'], None
+            if k == 'compose':
+                ah, at, th, tt = op[1:5]
+
+                class Source(flow.Operator):
+                    def compose(self, scope):  # pylint: disable=unused-argument
+                        return flow.Trunk(flow.Segment(nodes[ah], None if at is None else nodes[at]),
+                                          flow.Segment(nodes[th], None if tt is None else nodes[tt]))
+
+                comp = env['assembly'].Composition(Source())
+                return ['comp', [self.idx(comp.apply._head), self.idx(comp.apply._tail)],  # pylint: disable=protected-access
+                        [self.idx(comp.train._head), self.idx(comp.train._tail)]], None  # pylint: disable=protected-access
             if k == 'train':
                 nodes[op[1]].train(nodes[op[2]][op[3]], nodes[op[4]][op[5]])
                 return ['ok'], None
@@ -293,7 +310,16 @@ def judge(op, res, cls, before, after) -> list[tuple[str, str]]:
             out.append((sig, f'{op} raised {res[1]} but changed the graph'))
     for sig, what in invariants(after):
         if not any(s == sig for s, _ in invariants(before)):
-            out.append((f'{sig}-{route}', f'after {op} ({res}): {what}'))
+            # (the shared-placeholder-port root cause is the same whatever call delivers the subscriber)
+            full = sig if sig == 'I1-two-publishers-shared-future-port' else f'{sig}-{route}'
+            out.append((full, f'after {op} ({res}): {what}'))
+    if op[0] == 'compose' and res[0] == 'comp':
+        # "a composition still containing placeholders is refused": each path on its own
+        for path, (h, tl) in (('apply', res[1]), ('train', res[2])):
+            if h >= 0 and not _is_worker(after, h) and tl != h:
+                aliased = tl >= 0 and len(after[0][h]) == len(after[0][tl]) > 0 and after[0][h] == after[0][tl]
+                sig = 'placeholder-accepted-head-aliases-tail' if aliased else f'composition-placeholder-accepted-{path}'
+                out.append((sig, f'{op} accepted a composition whose {path} segment is headed by a Future'))
     if op[0] in ('segment', 'validate'):
         h, t = op[1], op[2]
         if res[0] == 'node':
@@ -311,7 +337,7 @@ def judge(op, res, cls, before, after) -> list[tuple[str, str]]:
 
 
 def _touches_future(op, dump) -> bool:
-    if op[0] == 'sub':
+    if op[0] in ('sub', 'pub'):
         ns = [op[1], op[3]]
     elif op[0] == 'train':
         ns = [op[1], op[2], op[4]]
@@ -363,6 +389,10 @@ def gen_op(rng: random.Random, real: Real, dump, last_failed, extra_ops: bool, a
     def in_idx(s):
         return rng.randrange(nodes[s].szin) if nodes[s].szin else 0
 
+    def api(op):
+        """the same connection through either side of the port API"""
+        return ['pub', op[3], op[4], op[1], op[2]] if rng.random() < 0.4 else op
+
     def regcycle(f, p):
         """would registering p on f close a registration cycle among futures?"""
         if p == f:
@@ -385,6 +415,15 @@ def gen_op(rng: random.Random, real: Real, dump, last_failed, extra_ops: bool, a
         return ['copy', rng.randrange(n), None if rng.random() < 0.7 else rng.randrange(n)]
     if extra_ops and r < 0.22:
         return ['extend', rng.randrange(n), None if rng.random() < 0.7 else rng.randrange(n), rng.randrange(n)]
+    if extra_ops and r < 0.36:
+        # a composition with a placeholder (that has subscribers) heading exactly one of the two paths, or random paths
+        fheads = [f for f in futures if any(dump[0][f])]
+        wheads = [w for w in workers if nodes[w].szin <= 1 and not winfo[w][1]]
+        if fheads and wheads and rng.random() < 0.6:
+            f, w = rng.choice(fheads), rng.choice(wheads)
+            return ['compose', w, None, f, None] if rng.random() < 0.5 else ['compose', f, None, w, None]
+        return ['compose', rng.randrange(n), None if rng.random() < 0.7 else rng.randrange(n),
+                rng.randrange(n), None if rng.random() < 0.7 else rng.randrange(n)]
     if r < 0.14:
         h = rng.randrange(n)
         t = None if rng.random() < 0.6 else rng.randrange(n)
@@ -420,14 +459,14 @@ def gen_op(rng: random.Random, real: Real, dump, last_failed, extra_ops: bool, a
             else:
                 if any(r_[0] == s and r_[1] == j for r_ in dump[1]) or regcycle(s, p):
                     continue
-            return ['sub', s, j, p, out_idx(p)]
+            return api(['sub', s, j, p, out_idx(p)])
     for _ in range(20):
         s, p = rng.randrange(n), rng.randrange(n)
         if not nodes[p].szout or not nodes[s].szin:
             continue
         if s in futures and not allow_regcycle and regcycle(s, p):
             continue
-        return ['sub', s, in_idx(s), p, out_idx(p)]
+        return api(['sub', s, in_idx(s), p, out_idx(p)])
     return ['segment', rng.randrange(n), None]
 
 
@@ -495,6 +534,13 @@ CORPUS = [
     [['mkworker', False, 1, 1], ['mkfuture', 1, 1], ['sub', 1, 0, 0, 0], ['sub', 0, 0, 1, 0]],
     [['mkworker', True, 1, 1], ['mkworker', False, 1, 1], ['mkfuture', 1, 1], ['mkworker', False, 1, 1],
      ['sub', 2, 0, 0, 0], ['train', 0, 1, 0, 1, 0], ['sub', 3, 0, 2, 0]],
+    # a chain of placeholders wired through the publishing API, then calls refused deep in the chain (self, trained)
+    [['mkworker', True, 1, 1], ['mkfuture', 1, 1], ['mkfuture', 1, 1], ['mkworker', False, 1, 1],
+     ['pub', 0, 0, 1, 0], ['pub', 1, 0, 2, 0], ['sub', 0, 0, 2, 0], ['pub', 2, 0, 0, 0], ['sub', 3, 0, 2, 0],
+     ['train', 0, 2, 0, 3, 0], ['pub', 1, 0, 1, 0], ['pub', 2, 0, 2, 0]],
+    [['mkworker', False, 1, 1], ['mkfuture', 2, 2], ['mkfuture', 2, 2], ['mkworker', False, 2, 1],
+     ['pub', 0, 0, 1, 1], ['pub', 1, 1, 2, 0], ['sub', 3, 0, 2, 0], ['sub', 3, 1, 2, 1], ['sub', 0, 0, 2, 0],
+     ['pub', 2, 0, 0, 0]],
     # a placeholder registered on itself: RecursionError
     [['mkworker', False, 1, 1], ['mkfuture', 1, 1], ['sub', 0, 0, 1, 0], ['sub', 1, 0, 1, 0]],
     # chains of placeholders, both orders
@@ -517,18 +563,31 @@ CORPUS = [
 ]
 
 
+# sequences with calls that are not modelled (oracle only)
+ORACLE_CORPUS = [
+    # a composition with a placeholder heading exactly one path (train, then apply), then a clean one
+    [['mkworker', False, 0, 1], ['mkworker', False, 1, 1], ['sub', 1, 0, 0, 0], ['mkfuture', 1, 1],
+     ['mkworker', False, 1, 1], ['sub', 3, 0, 2, 0], ['compose', 0, None, 2, None], ['compose', 2, None, 0, None],
+     ['compose', 0, None, 0, 1], ['compose', 2, 2, 0, None]],
+    # a lone placeholder path is accepted by design; a placeholder in the middle is collapsed away
+    [['mkworker', False, 0, 1], ['mkfuture', 1, 1], ['mkworker', False, 1, 1], ['compose', 0, None, 1, None],
+     ['sub', 1, 0, 0, 0], ['sub', 2, 0, 1, 0], ['compose', 0, None, 0, 2], ['compose', 1, None, 0, None]],
+]
+
+
 class C11(fw.Check):
     ID = 'C11'
     LEAN_MODULES = ['ForML.Props.C11']
     DRIVER = 'drv_c11'
     RULE = ('op sequences over a universe of <= 6 nodes (workers 1:1/2:1/1:2/2:2/0:1/1:0 stateful or not, forks, futures '
-            '1:1/2:2): create/fork, s[j].subscribe(p[i]), n.train(a[i], b[k]), Segment(h[,t]), Segment.accept(Validator); '
+            '1:1/2:2): create/fork, s[j].subscribe(p[i]) or p[i].publish(s, Apply(j)) (either side of the port API), n.train(a[i], b[k]), Segment(h[,t]), Segment.accept(Validator); '
             'generated online against the real graph: 70 % of the calls are aimed at legal ones, 30 % uniformly random '
             '(mostly illegal), failed calls are retried with probability 1/4; hand-written corpus and the witnesses of '
-            'findings.d first; thorough adds every sequence of <= 4 state-changing calls from a 19-call alphabet on a fixed '
+            'findings.d first; thorough adds every sequence of <= 4 state-changing calls from a 22-call alphabet on a fixed '
             '4-node universe (all results + final state compared). Transparency stream: random legal wirings through 1..3 '
             'futures executed in several (thorough: up to all) orders, worker-to-worker connections compared with the path '
-            'closure of the requested wiring. Oracle-only stream (not modelled): Segment.copy, Segment.extend, cycles of '
+            'closure of the requested wiring. Oracle-only stream (not modelled): Segment.copy, Segment.extend, flow.Composition over Trunk(apply, train) '
+            'with a placeholder heading exactly one path, cycles of '
             'placeholders. Every call of every sequence is one evaluation; a sequence is distinct by its op list and '
             'non-trivial when it contains at least three kinds of calls.')
     TRUSTED = [
@@ -631,14 +690,15 @@ class C11(fw.Check):
         """Segment.copy / Segment.extend (not modelled) and registration cycles among futures: oracle only."""
         nseq = self.n(300, 3000)
         items = [(self.rng.getrandbits(48), self.rng.choice([8, 12, 16]), True, True) for _ in range(nseq)]
-        for ops, _, verdicts in self._pool_map('seed', items):
-            self._account(ops, verdicts, 'oracle-only(copy/extend/reg-cycles)')
+        for ops, _, verdicts in self._pool_map('fixed', ORACLE_CORPUS) + self._pool_map('seed', items):
+            self._account(ops, verdicts, 'oracle-only(copy/extend/compose/reg-cycles)')
 
     def _exhaustive(self):
         universe = [['mkworker', True, 1, 1], ['mkworker', False, 1, 1], ['mkfuture', 1, 1], ['fork', 0]]
         # (the future registering itself, a registration cycle, is a corpus case: tracing calls made after it end in
         # Python's RecursionError inside Future.subscribed, which the model does not follow)
         alphabet = [['sub', s, 0, p, 0] for s in range(4) for p in range(4) if (s, p) != (2, 2)]
+        alphabet += [['pub', 1, 0, 2, 0], ['pub', 2, 0, 3, 0], ['pub', 2, 0, 0, 0]]
         alphabet += [['train', 0, 1, 0, 1, 0], ['train', 0, 2, 0, 1, 0], ['train', 3, 1, 0, 2, 0], ['train', 0, 1, 0, 0, 0]]
         probes = [['segment', 1, None], ['validate', 2, None]]
         depth = self.n(2, 4)
@@ -691,7 +751,8 @@ class C11(fw.Check):
             if len(perms) > self.n(4, 24):
                 perms = [tuple(self.rng.sample(links, len(links))) for _ in range(self.n(4, 24))]
             for perm in perms:
-                jobs.append(creates + [['sub', s, 0, p, 0] for p, s in perm])
+                jobs.append(creates + [['sub', s, 0, p, 0] if self.rng.random() < 0.6 else ['pub', p, 0, s, 0]
+                                       for p, s in perm])
                 meta.append((links, nw))
         res = self._pool_map('fixed', jobs)
         self._compare(res, 'seq', 'transparency')
